@@ -217,6 +217,72 @@ def forwardObs (sc : Scenario) (disp : Dispatch) : Obs :=
                  contentLength := r.contentLength, headers := r.headers, read := a.read, readEnd := a.readEnd,
                  writes := a.writes, readProg := a.readProg, writeProg := a.writeProg } }
 
+/-- `operation.handle`, before the backend is called: a Connect GET target needs the first
+    message for its request line.  `.error` = the RPC ends here with this response. -/
+def transcodePre (w : World) (o : Op) (pl : HandlePlan) (st0 : St) : Except (Sink × Bool) (St × Option (Bytes × Bool)) :=
+  if pl.useGet then
+    let rr := readRequestMessage w st0 false
+    let res : Except Err (Bytes × Bool) := match rr.1 with
+      | .error .eof => .ok ([], o.cReqComp.isSome && o.clientEnveloper.isNone)
+      | x => x
+    match res with
+    | .error e => .error (opReportError o rr.2.1.sink e)
+    | .ok (data, wasCompressed) =>
+      match decodeRequest w o pl data wasCompressed with
+      | .error e => .error (opReportError o rr.2.1.sink e)
+      | .ok v => .ok (rr.2.1, some (v, wasCompressed))
+  else .ok (st0, none)
+
+/-- The request state the backend handler starts with. -/
+def transcodeStartState (st : St) (skipBody : Bool) : St :=
+  let st : St := { st with rw := { st.rw with active := true } }
+  -- drainBody for a skipped body
+  if skipBody then { st with src := { st.src with chunks := [] } } else st
+
+/-- The state when `ServeHTTP` returns: the handler ran, the response writer is closed (unless
+    the handler's goroutine panicked). -/
+def transcodeFinish (w : World) (tb : Tables) (f : Flight) : St × Bool :=
+  if f.panic then (f.st, true) else rwClose w tb f.st
+
+/-- `operation.handle` with the backend handler. -/
+def transcodeRun (w : World) (sc : Scenario) (o : Op) (pl : HandlePlan) (st : St) (first : Option (Bytes × Bool)) : Obs :=
+  let r := sc.req
+  -- request line
+  let (bmethod, bquery, skipBody, serverPrepNow) : Bytes × Bytes × Bool × Bool :=
+    match first with
+    | some (v, _) =>
+      match connectGetQuery w o v with
+      | some q => (sGET, q, true, true)
+      | none => (sPOST, [], false, false)
+    | none => (sPOST, [], false, false)
+  let acc := intersection w.knownCompression o.reqMeta.acceptCompression
+  let serverMeta : ReqMeta := { o.reqMeta with codec := o.scodec, compression := o.sReqComp.getD [], acceptCompression := acc }
+  let bh := o.sform.addRequestHeaders serverMeta o.headers
+  let rd : Reader :=
+    if skipBody then .raw
+    else if pl.sameReqCompression && pl.sameReqCodec && !pl.mustDecode then .enveloping {}
+    else
+      match first with
+      | some (v, wasCompressed) =>
+        let out := encodeRequest w o serverPrepNow v wasCompressed
+        match requestEnvelope o out wasCompressed with
+        | .ok envB => .transforming { consumedFirst := true, buffer := some out, env := envB, envRemain := envB.length }
+        | .error e => .transforming { consumedFirst := true, err := some e }
+      | none => .transforming {}
+  let run := runScript w sc.tables pl sc.script sc.src.left { st := transcodeStartState st skipBody, rd := rd }
+  let fin := transcodeFinish w sc.tables run.1
+  { dispatch := .svc, sink := fin.1.sink, panic := fin.2,
+    backend := { run.2 with method := bmethod, path := o.conf.path, rawQuery := bquery,
+                            protoMajor := if o.sform == .grpc then 2 else r.protoMajor,
+                            contentLength := -1, headers := bh } }
+
+/-- `Transcoder.ServeHTTP` for a request that needs conversion. -/
+def serveTranscode (w : World) (sc : Scenario) (o : Op) : Obs :=
+  let pl := o.plan w
+  match transcodePre w o pl { op := o, src := sc.src, sink := {} } with
+  | .error (sink, p) => { sink := sink, panic := p }
+  | .ok (st, first) => transcodeRun w sc o pl st first
+
 /-- `Transcoder.ServeHTTP`. -/
 def serve (w : World) (sc : Scenario) : Obs :=
   let r := sc.req
@@ -231,56 +297,6 @@ def serve (w : World) (sc : Scenario) : Obs :=
       let ob := raw .svc true
       -- validate() rewrites the protocol version for gRPC targets
       if o.sform == .grpc then { ob with backend := { ob.backend with protoMajor := 2 } } else ob
-    else
-      let pl := o.plan w
-      let st0 : St := { op := o, src := sc.src, sink := {} }
-      -- the first message is needed for the request line of a Connect GET target
-      let pre : Except (Sink × Bool) (St × Option (Bytes × Bool)) :=
-        if pl.useGet then
-          let (res, st, _) := readRequestMessage w st0 false
-          let res : Except Err (Bytes × Bool) := match res with
-            | .error .eof => .ok ([], o.cReqComp.isSome && o.clientEnveloper.isNone)
-            | x => x
-          match res with
-          | .error e => .error (opReportError o st.sink e)
-          | .ok (data, wasCompressed) =>
-            match decodeRequest w o pl data wasCompressed with
-            | .error e => .error (opReportError o st.sink e)
-            | .ok v => .ok (st, some (v, wasCompressed))
-        else .ok (st0, none)
-      match pre with
-      | .error (sink, p) => { sink := sink, panic := p }
-      | .ok (st, first) =>
-        -- request line
-        let (bmethod, bquery, skipBody, serverPrepNow) : Bytes × Bytes × Bool × Bool :=
-          match first with
-          | some (v, _) =>
-            match connectGetQuery w o v with
-            | some q => (sGET, q, true, true)
-            | none => (sPOST, [], false, false)
-          | none => (sPOST, [], false, false)
-        let acc := intersection w.knownCompression o.reqMeta.acceptCompression
-        let serverMeta : ReqMeta := { o.reqMeta with codec := o.scodec, compression := o.sReqComp.getD [], acceptCompression := acc }
-        let bh := o.sform.addRequestHeaders serverMeta o.headers
-        let st := { st with rw := { st.rw with active := true } }
-        let rd : Reader :=
-          if skipBody then .raw
-          else if pl.sameReqCompression && pl.sameReqCodec && !pl.mustDecode then .enveloping {}
-          else
-            match first with
-            | some (v, wasCompressed) =>
-              let out := encodeRequest w o serverPrepNow v wasCompressed
-              match requestEnvelope o out wasCompressed with
-              | .ok envB => .transforming { consumedFirst := true, buffer := some out, env := envB, envRemain := envB.length }
-              | .error e => .transforming { consumedFirst := true, err := some e }
-            | none => .transforming {}
-        -- drainBody for a skipped body
-        let st := if skipBody then { st with src := { st.src with chunks := [] } } else st
-        let (f, b) := runScript w sc.tables pl sc.script sc.src.left { st := st, rd := rd }
-        let (st, p) := if f.panic then (f.st, true) else rwClose w sc.tables f.st
-        { dispatch := .svc, sink := st.sink, panic := p,
-          backend := { b with method := bmethod, path := o.conf.path, rawQuery := bquery,
-                              protoMajor := if o.sform == .grpc then 2 else r.protoMajor,
-                              contentLength := -1, headers := bh } }
+    else serveTranscode w sc o
 
 end Vanguard
